@@ -38,7 +38,8 @@ CONSTANTS Procs,          \* set of participants (integers)
           CrashBudget,    \* how many participants may crash
           AdvBudget,      \* how many published files an outside party may delete
           Debris,         \* set of [name, age]: files lying in the first directory's .kismet_temp initially
-          FrontKind,          \* "plain" | "sharded"
+          FrontKind,          \* "plain" | "sharded" | "stack" (plain write cache W + one plain read-only cache R1, auto_sync on)
+          PreRO,          \* stack: set of [key, val] held by the read-only cache R1
           KeyShards       \* sharded: [key -> <<primary, secondary>>] shard indices (0/1; two shards); plain: unused
 
 VARIABLES fs, clock, nino, pc, loc, aux, last
@@ -50,10 +51,12 @@ MaxAge == 3600
 Root == "W"
 NShards == 2
 ShardDir(i) == Root \o "/" \o DirName(i)
-BaseDirs == IF FrontKind = "plain" THEN {Root} ELSE {ShardDir(i) : i \in 0..NShards - 1}
+BaseDirs == IF FrontKind \in {"plain", "stack"} THEN {Root} ELSE {ShardDir(i) : i \in 0..NShards - 1}
+RORoot == "R1"
 TDof(b) == b \o "/.kismet_temp"
 \* path record of a directory id
 PathOfDir(id) == IF id = Root THEN [d |-> ".", n |-> Root]
+                 ELSE IF id = RORoot THEN [d |-> ".", n |-> RORoot]
                  ELSE IF IsTempDir(id) THEN [d |-> ParentOfTemp(id), n |-> ".kismet_temp"]
                  ELSE [d |-> Root, n |-> SubSeq(id, Len(Root) + 2, Len(id))]
 \* the directories create_dir_all walks for `id`, deepest first
@@ -62,10 +65,14 @@ Chain(id) == IF id = Root THEN <<Root>>
              ELSE <<id, Root>>
 PIn(b, n) == [d |-> b, n |-> n]
 Tm(t) == <<t, 0>>
-Cfg == [roots |-> <<[id |-> Root, kind |-> FrontKind, role |-> "w"]>>, front |-> FrontKind]
+Cfg == IF FrontKind = "stack"
+       THEN [roots |-> <<[id |-> Root, kind |-> "plain", role |-> "w"], [id |-> RORoot, kind |-> "plain", role |-> "ro"]>>, front |-> "stack", autosync |-> TRUE]
+       ELSE [roots |-> <<[id |-> Root, kind |-> FrontKind, role |-> "w"]>>, front |-> FrontKind]
 
 \* the key's two candidate directories, primary first
-KeyDirsOf(k) == IF FrontKind = "plain" THEN <<Root, Root>> ELSE <<ShardDir(KeyShards[k][1]), ShardDir(KeyShards[k][2])>>
+KeyDirsOf(k) == IF FrontKind = "plain" THEN <<Root, Root>>
+                ELSE IF FrontKind = "stack" THEN <<Root, RORoot>>       \* the write cache first, then the read-only cache
+                ELSE <<ShardDir(KeyShards[k][1]), ShardDir(KeyShards[k][2])>>
 OtherShard(b) == IF b = ShardDir(0) THEN ShardDir(1) ELSE ShardDir(0)
 
 Op(p) == loc[p].op
@@ -80,17 +87,23 @@ Content(key, val, w, of, upto) ==
 PreSeq == SetToSeq(Pre)
 PreIno(i) == "i" \o ToString(i)
 PreDir(e) == KeyDirsOf(e.key)[1]
-FirstDir == IF FrontKind = "plain" THEN Root ELSE ShardDir(0)
+FirstDir == IF FrontKind # "sharded" THEN Root ELSE ShardDir(0)
 InitFS ==
     IF ~DirsExist THEN EmptyFS
-    ELSE [ents |-> ("." :> (Root :> "DIR")) @@
-                   (IF FrontKind = "plain" THEN <<>> ELSE (Root :> [n \in {DirName(i) : i \in 0..NShards - 1} |-> "DIR"])) @@
+    ELSE [ents |-> ("." :> ((Root :> "DIR") @@ (IF FrontKind = "stack" THEN (RORoot :> "DIR") ELSE <<>>))) @@
+                   (IF FrontKind = "stack" THEN (RORoot :> [k \in {e.key : e \in PreRO} |-> "ro" \o k]) ELSE <<>>) @@
+                   (IF FrontKind # "sharded" THEN <<>> ELSE (Root :> [n \in {DirName(i) : i \in 0..NShards - 1} |-> "DIR"])) @@
                    [b \in BaseDirs |-> ((".kismet_temp" :> "DIR") @@
                         [k \in {PreSeq[i].key : i \in {j \in 1..Len(PreSeq) : PreDir(PreSeq[j]) = b}} |->
                             PreIno(CHOOSE i \in 1..Len(PreSeq) : PreSeq[i].key = k)])] @@
                    [t \in {TDof(b) : b \in BaseDirs} |->
                         IF t = TDof(FirstDir) THEN [n \in {d.name : d \in Debris} |-> "deb" \o n] ELSE <<>>],
-          inos |-> [x \in {PreIno(i) : i \in 1..Len(PreSeq)} |->
+          inos |-> (IF FrontKind = "stack"
+                    THEN [x \in {"ro" \o e.key : e \in PreRO} |->
+                            LET e == CHOOSE y \in PreRO : "ro" \o y.key = x IN
+                            [mode |-> 256, at |-> Tm(8000 - Delta), mt |-> Tm(8000), nlink |-> 1, c |-> Content(e.key, e.val, 0, 1, 1)]]
+                    ELSE <<>>) @@
+                   [x \in {PreIno(i) : i \in 1..Len(PreSeq)} |->
                         LET i == CHOOSE j \in 1..Len(PreSeq) : PreIno(j) = x IN
                         [mode |-> 256, at |-> Tm(9000 + i - Delta), mt |-> Tm(9000 + i), nlink |-> 1,
                          c |-> Content(PreSeq[i].key, PreSeq[i].val, 0, 1, 1)]] @@
@@ -108,7 +121,7 @@ IdleLoc == [opi |-> 0, op |-> NoOp, now |-> 0, tmp |-> "", tino |-> "", tfd |-> 
             names |-> <<>>, idx |-> 0, ents |-> <<>>, evict |-> <<>>, back |-> <<>>, att |-> 1,
             cont |-> "", hit |-> "", wr |-> 0, fired |-> FALSE, stmode |-> 0, stat |-> <<>>, rr |-> <<>>, cap |-> Cap,
             b |-> Root, td |-> TDof(Root), mb |-> Root, mcont |-> "", mkq |-> <<>>, mki |-> 1, mkok |-> "", mkerr |-> "",
-            est |-> <<>>, probe |-> 1, h1 |-> Root, h2 |-> Root, maintained |-> FALSE, rem |-> 0, bound |-> TRUE]
+            est |-> <<>>, probe |-> 1, h1 |-> Root, h2 |-> Root, maintained |-> FALSE, rem |-> 0, bound |-> TRUE, wcont |-> ""]
 
 Init ==
     /\ fs = InitFS
@@ -117,7 +130,8 @@ Init ==
     /\ pc = [p \in Procs |-> "idle"]
     /\ loc = [p \in Procs |-> [IdleLoc EXCEPT !.est = [b \in BaseDirs |-> 0]]]
     /\ aux = [pubs |-> [x \in DOMAIN InitFS.inos |-> TRUE],
-              supplied |-> {<<e.key, e.val>> : e \in Pre},
+              supplied |-> {<<e.key, e.val>> : e \in Pre} \cup (IF FrontKind = "stack" THEN {<<e.key, e.val>> : e \in PreRO} ELSE {}),
+              dirty |-> {},
               errs |-> {}, rets |-> <<>>, crashes |-> 0, advs |-> 0, crashed |-> {}]
     /\ last = [e |-> "init"]
 
@@ -130,7 +144,8 @@ SysLabels == {"g1", "g2", "g3", "t1", "t2", "t3", "t4",
               "m1", "m2", "m3", "m4", "m5", "m7", "m8a", "m8w", "m8b", "m8c", "m9",
               "c1", "c2", "c3", "c4", "c4u", "c5", "c6",
               "p1", "p1w", "p2", "p3", "p4", "p5", "p6", "q1", "q2", "q3", "q4", "p7",
-              "d1", "d2", "d3"}
+              "d1", "d2", "d3",
+              "es", "ec", "ef1", "ef2", "ecp1", "ecp2", "ew", "efc", "efs", "ecl", "eop", "eg1", "eg2", "eg3", "ecl2", "esk", "eun"}
 
 RO == <<"RDONLY", "CLOEXEC">>
 WO == <<"WRONLY", "CLOEXEC">>
@@ -186,6 +201,22 @@ NextCallL(p, l, lbl) ==
       [] lbl = "q4" -> [call |-> "close", via |-> "fd", ino |-> l.fd, ph |-> "lib"]
       [] lbl = "p7" -> [call |-> "unlink", path |-> PIn(l.td, l.tmp), ph |-> "lib"]
       \* application epilogue: does the source still exist; drop the NamedTempFile
+      \* stacked cache: ensure = get_or_update with the judge Promote
+      [] lbl \in {"es", "esk"} -> [call |-> "lseek", via |-> "fd", ino |-> l.hit, ph |-> "lib"]
+      [] lbl = "ec" -> [call |-> "open", path |-> PIn(l.td, TmpNameL(p, l)), flags |-> <<"RDWR", "CREAT", "EXCL", "CLOEXEC">>, cmode |-> 384, ph |-> "lib"]
+      [] lbl = "ef1" -> [call |-> "stat", via |-> "fd", ino |-> l.hit, ph |-> "lib"]
+      [] lbl = "ef2" -> [call |-> "stat", via |-> "fd", ino |-> l.tino, ph |-> "lib"]
+      [] lbl \in {"ecp1", "ecp2"} -> [call |-> "copy", via |-> "fd", ino |-> l.tino, ino2 |-> l.hit, ph |-> "lib"]
+      [] lbl = "ew" -> [call |-> "write", via |-> "fd", ino |-> l.tino, ph |-> "cb"]
+      [] lbl = "efc" -> [call |-> "chmod", via |-> "fd", ino |-> l.tino, cmode |-> 292, ph |-> "lib"]
+      [] lbl = "efs" -> [call |-> "fsync", via |-> "fd", ino |-> l.tino, ph |-> "lib"]
+      [] lbl = "ecl" -> [call |-> "close", via |-> "fd", ino |-> l.tino, ph |-> "lib"]
+      [] lbl = "eop" -> [call |-> "open", path |-> PIn(l.td, l.tmp), flags |-> RO, ph |-> "lib"]
+      [] lbl = "eg1" -> [call |-> "open", path |-> PIn(Root, k), flags |-> RO, ph |-> "lib"]
+      [] lbl = "eg2" -> [call |-> "stat", via |-> "fd", ino |-> l.fd, ph |-> "lib"]
+      [] lbl = "eg3" -> [call |-> "utimens", via |-> "fd", ino |-> l.fd, atk |-> "set", at |-> l.stat.mt, mtk |-> "omit", ph |-> "lib"]
+      [] lbl = "ecl2" -> [call |-> "close", via |-> "fd", ino |-> l.tino, ph |-> "lib"]
+      [] lbl = "eun" -> [call |-> "unlink", path |-> PIn(l.td, l.tmp), ph |-> "lib"]
       [] lbl = "d1" -> [call |-> "stat", path |-> PIn(l.td, l.tmp), nofollow |-> TRUE, ph |-> "app"]
       [] lbl = "d2" -> [call |-> "unlink", path |-> PIn(l.td, l.tmp), ph |-> "app"]
       [] lbl = "d3" -> [call |-> "close", via |-> "fd", ino |-> l.tino, ph |-> "app"]
@@ -218,6 +249,10 @@ Ret(c0, newino) ==
 ObsMC(p, c) ==
     IF c.call = "open" /\ c.res = "ok" /\ Has(c, "ino") /\ Lookup(fs, c.path) = "NONE" THEN
         [inos |-> (c.ino :> [mode |-> c.cmode, at |-> Tm(clock), mt |-> Tm(clock), c |-> EmptyContent])]
+    ELSE IF c.call = "copy" /\ c.res = "ok" THEN
+        \* the first copy_file_range transfers the whole (small) file, the second returns 0
+        [inos |-> (c.ino :> [c |-> IF pc[p] = "ecp1" THEN fs.inos[c.ino2].c ELSE fs.inos[c.ino].c, mt |-> Tm(clock), at |-> fs.inos[c.ino].at])
+                  @@ (c.ino2 :> [at |-> fs.inos[c.ino2].at])]
     ELSE IF c.call = "write" /\ c.res = "ok" THEN
         LET o == Op(p) i == c.ino IN
         [inos |-> (i :> [c |-> Content(o.key, o.val, p, o.chunks, loc[p].wr + 1), mt |-> Tm(clock), at |-> fs.inos[i].at])]
@@ -230,7 +265,7 @@ GoNow(l, lbl) == [pc |-> lbl, loc |-> [l EXCEPT !.now = clock], ret |-> <<>>, ti
 Done(l, ok, res, hit) == [pc |-> "ret", loc |-> l, ret |-> <<[ok |-> ok, res |-> res, hit |-> hit]>>, tick |-> FALSE]
 
 Min2(a, b) == IF a < b THEN a ELSE b
-Fail(l) == Go([l EXCEPT !.cont = "err"], IF l.tfd THEN "d1" ELSE "fail")
+Fail(l) == Go([l EXCEPT !.cont = "err"], IF l.op.api = "ensure" THEN (IF l.tmp # "" THEN "eun" ELSE "fail") ELSE IF l.tfd THEN "d1" ELSE "fail")
 \* create_dir_all(chain[1]) then continue at `ok` (or fail)
 MkdirAll(l, chain, okl) == Go([l EXCEPT !.mkq = chain, !.mki = 1, !.mkok = okl], "k1")
 StartPublish(l) == GoNow(l, "p1")
@@ -248,7 +283,8 @@ AfterMaint(l) ==
 EstAfter(l) == IF l.maintained THEN [l.est EXCEPT ![l.h1] = Min2(l.rem, 254) + 1]      \* the count the prune of the written shard returned, plus this file
                ELSE [l.est EXCEPT ![l.h1] = IF @ < 255 THEN @ + 1 ELSE @]
 FinishWrite(l) ==
-    IF FrontKind = "plain" THEN Go([l EXCEPT !.cont = "ok"], "d1")
+    IF l.op.api = "ensure" THEN Go(l, l.wcont)          \* promote: rewind the hit; miss: look the key up again
+    ELSE IF FrontKind \in {"plain", "stack"} THEN Go([l EXCEPT !.cont = "ok"], "d1")
     ELSE LET l2 == [l EXCEPT !.est = EstAfter(l)] IN
          IF l.maintained THEN Go(l2, "y1")      \* maintain a random other shard
          ELSE Go(l2, "z1")                      \* maintain this shard if its estimate says it is far over capacity
@@ -259,10 +295,13 @@ AfterL(p, l, lbl, c) ==
     LET ok == c.res = "ok" api == l.op.api IN
     CASE lbl = "g1" -> IF ok THEN Go([l EXCEPT !.fd = c.ino, !.hit = c.ino], "g2")
                        ELSE IF IsAbsent(c.res) THEN
-                            (IF l.probe = 1 /\ l.h2 # l.b THEN Go([l EXCEPT !.probe = 2, !.b = l.h2], "g1") ELSE Done(l, TRUE, "none", ""))
+                            (IF l.probe = 1 /\ l.h2 # l.b THEN Go([l EXCEPT !.probe = 2, !.b = l.h2], "g1")
+                             ELSE IF api = "ensure" THEN Go([l EXCEPT !.b = Root, !.td = TDof(Root), !.wcont = "eg1", !.hit = ""], "a1")
+                             ELSE Done(l, TRUE, "none", ""))
                        ELSE Done(l, FALSE, c.res, "")
-      [] lbl = "g2" -> IF ok /\ TLt(c.st.at, c.st.mt) THEN Go([l EXCEPT !.stat = c.st], "g3") ELSE Done(l, TRUE, "some", l.hit)
-      [] lbl = "g3" -> Done(l, TRUE, "some", l.hit)
+      [] lbl = "g2" -> IF ok /\ TLt(c.st.at, c.st.mt) THEN Go([l EXCEPT !.stat = c.st], "g3")
+                       ELSE IF api = "ensure" THEN Go(l, "es") ELSE Done(l, TRUE, "some", l.hit)
+      [] lbl = "g3" -> IF api = "ensure" THEN Go(l, "es") ELSE Done(l, TRUE, "some", l.hit)
       [] lbl = "t1" -> IF ok THEN Go([l EXCEPT !.fd = c.ino], "t3")
                        ELSE IF WriteFallback THEN Go(l, "t2")
                        ELSE IF IsAbsent(c.res) THEN
@@ -275,7 +314,8 @@ AfterL(p, l, lbl, c) ==
       [] lbl = "t3" -> IF ok THEN Go(l, "t4") ELSE Done(l, FALSE, c.res, "")
       [] lbl = "t4" -> Done([l EXCEPT !.fd = ""], TRUE, "true", "")
       \* temp_dir()
-      [] lbl = "a1" -> IF ok /\ c.st.kind = "dir" THEN Go(l, "a3") ELSE MkdirAll(l, Chain(l.td), "a3")
+      [] lbl = "a1" -> LET nxt == IF api = "ensure" THEN "ec" ELSE "a3" IN
+                       IF ok /\ c.st.kind = "dir" THEN Go(l, nxt) ELSE MkdirAll(l, Chain(l.td), nxt)
       \* create_dir_all: first attempt at level mki
       [] lbl = "k1" -> IF ok THEN (IF l.mki = 1 THEN Go(l, l.mkok) ELSE Go([l EXCEPT !.mki = @ - 1], "k2"))
                        ELSE IF IsAbsent(c.res) /\ l.mki < Len(l.mkq) THEN Go([l EXCEPT !.mki = @ + 1], "k1")
@@ -289,7 +329,7 @@ AfterL(p, l, lbl, c) ==
                        ELSE Done(l, FALSE, c.res, "")
       [] lbl = "a4" -> IF ~ok THEN Go([l EXCEPT !.cont = "err"], "d2")
                        ELSE IF l.wr + 1 < l.op.chunks THEN Go([l EXCEPT !.wr = @ + 1], "a4")
-                       ELSE Go([l EXCEPT !.wr = @ + 1, !.att = 1, !.maintained = FALSE], IF FrontKind = "plain" THEN "s1" ELSE "x1")
+                       ELSE Go([l EXCEPT !.wr = @ + 1, !.att = 1, !.maintained = FALSE], IF FrontKind # "sharded" THEN "s1" ELSE "x1")
       \* sharded: write to h2 iff the key already lives there (only NotFound means absent), else to h1
       [] lbl = "x1" -> IF ok THEN Go([l EXCEPT !.b = l.h2], "s1")
                        ELSE IF c.res = "ENOENT" THEN Go([l EXCEPT !.b = l.h1], "s1")
@@ -344,7 +384,7 @@ AfterL(p, l, lbl, c) ==
       [] lbl = "p4" -> IF ok THEN Go([l EXCEPT !.stmode = c.st.mode], "p5") ELSE PublishFailed(l)
       [] lbl = "p5" -> IF ok THEN Go(l, "p6") ELSE PublishFailed(l)
       [] lbl = "p6" -> IF ok THEN Go(l, "p7")
-                       ELSE IF api = "put" /\ c.res = "EEXIST" THEN GoNow(l, "q1")
+                       ELSE IF api \in {"put", "ensure"} /\ c.res = "EEXIST" THEN GoNow(l, "q1")
                        ELSE PublishFailed(l)
       [] lbl = "q1" -> IF ok THEN Go([l EXCEPT !.fd = c.ino], "q3")
                        ELSE IF WriteFallback THEN Go(l, "q2")
@@ -354,6 +394,29 @@ AfterL(p, l, lbl, c) ==
       [] lbl = "q3" -> IF ok THEN Go(l, "q4") ELSE PublishFailed(l)
       [] lbl = "q4" -> Go([l EXCEPT !.fd = ""], "p7")
       [] lbl = "p7" -> IF ok \/ IsAbsent(c.res) THEN FinishWrite(l) ELSE PublishFailed(l)
+      \* ensure: rewind the hit; a hit in the write cache is returned, a hit in the read-only cache is promoted
+      [] lbl = "es" -> IF l.b = Root THEN Done(l, TRUE, "some", l.hit)
+                       ELSE Go([l EXCEPT !.b = Root, !.td = TDof(Root), !.wcont = "esk"], "a1")
+      [] lbl = "ec" -> IF ok THEN Go([l EXCEPT !.tmp = c.path.n, !.tino = c.ino, !.wr = 0], IF l.wcont = "esk" THEN "ef1" ELSE "ew")
+                       ELSE Fail(l)
+      [] lbl = "ef1" -> Go(l, "ef2")
+      [] lbl = "ef2" -> Go(l, "ecp1")
+      [] lbl = "ecp1" -> IF ok THEN Go(l, "ecp2") ELSE Fail(l)
+      [] lbl = "ecp2" -> IF ok THEN Go(l, "efc") ELSE Fail(l)
+      [] lbl = "ew" -> IF ~ok THEN Fail(l)
+                       ELSE IF l.wr + 1 < l.op.chunks THEN Go([l EXCEPT !.wr = @ + 1], "ew") ELSE Go([l EXCEPT !.wr = @ + 1], "efc")
+      [] lbl = "efc" -> IF ok THEN Go(l, "efs") ELSE Fail(l)
+      [] lbl = "efs" -> IF ok THEN Go(l, "ecl") ELSE Fail(l)              \* a failed flush is never followed by publication
+      [] lbl = "ecl" -> IF ~ok THEN Fail(l)
+                        ELSE IF l.wcont = "esk" THEN Go([l EXCEPT !.att = 1, !.maintained = FALSE], "s1")
+                        ELSE Go(l, "eop")
+      [] lbl = "eop" -> IF ok THEN Go([l EXCEPT !.att = 1, !.maintained = FALSE, !.hit = c.ino], "s1") ELSE Fail(l)
+      [] lbl = "esk" -> Go([l EXCEPT !.cont = "ok"], "eun")
+      [] lbl = "eg1" -> IF ok THEN Go([l EXCEPT !.fd = c.ino], "eg2") ELSE Go([l EXCEPT !.cont = "ok"], "eun")   \* evicted at once: keep the pre-opened handle
+      [] lbl = "eg2" -> IF ok /\ TLt(c.st.at, c.st.mt) THEN Go([l EXCEPT !.stat = c.st], "eg3") ELSE Go(l, "ecl2")
+      [] lbl = "eg3" -> Go(l, "ecl2")
+      [] lbl = "ecl2" -> Go([l EXCEPT !.hit = l.fd, !.cont = "ok"], "eun")
+      [] lbl = "eun" -> IF l.cont = "ok" THEN Done(l, TRUE, "some", l.hit) ELSE Done(l, FALSE, "err", "")
       \* application epilogue
       [] lbl = "d1" -> Go(l, "d2")
       [] lbl = "d2" -> Go(l, "d3")
@@ -388,7 +451,7 @@ NewPubsK(f, pubs) ==
     LET cands == UNION {{f.ents[b][n] : n \in {x \in DOMAIN f.ents[b] : IsKeyName(x) /\ f.ents[b][x] # "DIR"}} : b \in BaseDirs \cap DOMAIN f.ents}
     IN [i \in cands |-> TRUE] @@ pubs
 
-S == [fs |-> fs, pubs |-> aux.pubs, supplied |-> aux.supplied, planted |-> {},
+S == [fs |-> fs, pubs |-> aux.pubs, supplied |-> aux.supplied, planted |-> {}, dirty |-> aux.dirty, syncfail |-> {},
       cur |-> [p \in {q \in Procs : loc[q].opi > 0} |-> Op(p)]]
 
 \* ---- actions -----------------------------------------------------------------
@@ -398,14 +461,14 @@ Begin(p) ==
     /\ Alive(p) /\ pc[p] = "idle" /\ loc[p].opi < Len(Prog[p])
     /\ LET o == Prog[p][loc[p].opi + 1]
            dirs == KeyDirsOf(o.key)
-           ord == IF FrontKind = "plain" THEN dirs ELSE OrderByLoad(loc[p], dirs)
+           ord == IF FrontKind # "sharded" THEN <<Root, Root>> ELSE OrderByLoad(loc[p], dirs)
            base == [IdleLoc EXCEPT !.opi = loc[p].opi + 1, !.op = o, !.now = clock, !.est = loc[p].est]
-           l == IF o.api \in {"get", "touch"} THEN [base EXCEPT !.b = dirs[1], !.h1 = dirs[1], !.h2 = dirs[2], !.probe = 1]
+           l == IF o.api \in {"get", "touch", "ensure"} THEN [base EXCEPT !.b = dirs[1], !.h1 = dirs[1], !.h2 = dirs[2], !.probe = 1]
                 ELSE [base EXCEPT !.h1 = ord[1], !.h2 = ord[2], !.b = ord[1], !.td = TDof(ord[1])]
        IN /\ loc' = [loc EXCEPT ![p] = l]
-          /\ pc' = [pc EXCEPT ![p] = IF o.api = "get" THEN "g1" ELSE IF o.api = "touch" THEN "t1"
-                                     ELSE IF FrontKind = "plain" THEN "a1" ELSE "s0"]
-          /\ aux' = [aux EXCEPT !.supplied = @ \cup (IF o.api \in {"set", "put"} THEN {<<o.key, o.val>>} ELSE {})]
+          /\ pc' = [pc EXCEPT ![p] = IF o.api \in {"get", "ensure"} THEN "g1" ELSE IF o.api = "touch" THEN "t1"
+                                     ELSE IF FrontKind # "sharded" THEN "a1" ELSE "s0"]
+          /\ aux' = [aux EXCEPT !.supplied = @ \cup (IF o.api \in {"set", "put", "ensure"} THEN {<<o.key, o.val>>} ELSE {})]
           /\ last' = [e |-> "call", p |-> p, api |-> o.api, key |-> o.key]
     /\ clock' = clock + 1
     /\ UNCHANGED <<fs, nino>>
@@ -458,6 +521,8 @@ Sys(p) ==
           /\ pc' = [pc EXCEPT ![p] = nx.pc]
           /\ loc' = [loc EXCEPT ![p] = nx.loc]
           /\ aux' = [aux EXCEPT !.pubs = NewPubsK(m, @),
+                                !.dirty = IF c.res = "ok" /\ c.call \in {"write", "copy"} THEN @ \cup {c.ino}
+                                          ELSE IF c.res = "ok" /\ c.call = "fsync" THEN @ \ {c.ino} ELSE @,
                                 !.rets = IF nx.ret # <<>> THEN (p :> (nx.ret[1] @@ [api |-> Op(p).api, key |-> Op(p).key])) @@ @ ELSE @,
                                 !.errs = IF nx.ret # <<>> /\ ~nx.ret[1].ok THEN @ \cup {<<p, loc[p].opi, nx.ret[1].res>>} ELSE @]
           /\ last' = c @@ [e |-> "sys", p |-> p, api |-> Op(p).api, pcl |-> pc[p]]
@@ -494,7 +559,7 @@ InvDirValid == DirValid(Cfg, S)
 InvDebris == DebrisConfined(Cfg, S)
 \* every handle a lookup returned reads as a complete value supplied for that key (C01)
 InvHandle == \A p \in DOMAIN aux.rets : LET r == aux.rets[p] IN
-    r.api = "get" /\ r.ok /\ r.res = "some" /\ pc[p] = "ret" =>
+    r.api \in {"get", "ensure"} /\ r.ok /\ r.res = "some" /\ pc[p] = "ret" =>
         /\ r.hit \in DOMAIN fs.inos
         /\ ValueFor(fs.inos[r.hit].c, r.key)
         /\ <<r.key, fs.inos[r.hit].c.val>> \in aux.supplied
@@ -504,6 +569,13 @@ InvNoErr == aux.errs = {}
 StepImmutable == [][last'.e = "sys" => LET e == last' IN
                         (DataMutation(e) => Target(fs, e) \notin DOMAIN aux.pubs)]_vars
 StepReadOnlyFirst == [][last'.e = "sys" => ReadOnlyFirst(Cfg, S, last')]_vars
+\* C03 at design level: with auto_sync, what gets published into the write cache was flushed after its last write
+StepDurableFirst == [][last'.e = "sys" /\ FrontKind = "stack" => DurableFirst(Cfg, S, last')]_vars
+\* C15 at design level: nothing under the read-only root ever changes except access times
+StepROUntouched == [][FrontKind = "stack" =>
+                        /\ (RORoot \in DOMAIN fs.ents => RORoot \in DOMAIN fs'.ents /\ fs'.ents[RORoot] = fs.ents[RORoot])
+                        /\ \A i \in {fs.ents[RORoot][n] : n \in DOMAIN fs.ents[RORoot]} :
+                              i \in DOMAIN fs'.inos /\ SameButAtime(fs.inos[i], fs'.inos[i])]_vars
 \* C06: a live participant in the middle of an operation always has a step of its own
 InvNonBlocking == \A p \in Procs : Alive(p) /\ pc[p] \notin {"idle"} =>
                       ENABLED (Trigger(p) \/ AgeCheck(p) \/ Internal(p) \/ Sys(p) \/ Return(p))
@@ -545,5 +617,5 @@ CoverAC == (last'.e = "sys" => TLCSet(7, TLCGet(7) \cup {<<last'.pcl, last'.call
 CoverInit == TLCSet(7, {})
 
 \* observation variables are kept out of the state space
-View == <<fs, pc, loc, aux.pubs, aux.errs, aux.crashed, aux.advs, aux.rets>>
+View == <<fs, pc, loc, aux.pubs, aux.errs, aux.crashed, aux.advs, aux.rets, aux.dirty>>
 =============================================================================
